@@ -337,7 +337,7 @@ pub fn solo_confirm(bin: &PathBuf, c: &SlowCase) -> Vec<f64> {
 
 pub fn run(tier: Tier, seed: u64) -> i32 {
     let mut run = Run::new("C08", tier, seed, "exploration");
-    run.rule = "evaluation = one `go` on the real binary with a planned slice s <= 200 ms (clock settings with movestogo absent or >= 1), alternating terminal roots (checkmates and stalemates: sampled KQK/KRK/KPK/KRRK/KQPKP families with corner-biased kings, terminal positions met by oracle-driven games with full material, composed mates) and non-terminal roots. Checked: a bestmove arrives; on a terminal root it is `0000` or `(none)`, otherwise a legal move; isready is answered afterwards and the next position+go is served; when the engine's own answer ends the game (a quarter of the non-terminal roots are one move from mate or stalemate) a further go without a new position must be answered with a null move as well. Hang = no answer after s + 1.5 s AND /proc shows the search thread gone (immediate verdict) or the process ended; latency above s + 300 ms is confirmed by three solo re-runs before it counts; a watchdog expiry with a live search thread is inconclusive. Schedules: 8 and 32 engines in parallel, pinned to one CPU, hooked binary with failpoints (search thread start delayed up to 20 ms, sends delayed), unmodified binary under ptrace delay injection (threads held at channel operations, thread start and standard-output entry points). Non-trivial = every go; distinct by (mode, root, go line, session)".into();
+    run.rule = "evaluation = one `go` on the real binary with a planned slice s <= 200 ms (plus 12/36 go's with slices of 2.4-6.4 s on roots whose search ends early and roots searched to the deadline; clock settings with movestogo absent or >= 1), alternating terminal roots (checkmates and stalemates: sampled KQK/KRK/KPK/KRRK/KQPKP families with corner-biased kings, terminal positions met by oracle-driven games with full material, composed mates) and non-terminal roots. Checked: a bestmove arrives; on a terminal root it is `0000` or `(none)`, otherwise a legal move; isready is answered afterwards and the next position+go is served; when the engine's own answer ends the game (a quarter of the non-terminal roots are one move from mate or stalemate) a further go without a new position must be answered with a null move as well. Hang = no answer after s + 1.5 s AND /proc shows the search thread gone (immediate verdict) or the process ended; latency above s + 300 ms is confirmed by three solo re-runs before it counts; a watchdog expiry with a live search thread is inconclusive. Schedules: 8 and 32 engines in parallel, pinned to one CPU, hooked binary with failpoints (search thread start delayed up to 20 ms, sends delayed), unmodified binary under ptrace delay injection (threads held at channel operations, thread start and standard-output entry points). Non-trivial = every go; distinct by (mode, root, go line, session)".into();
     run.assumptions = vec![
         "unbounded 'eventually answers' is restated as the bound slice + 300 ms (solo-confirmed) and plan + 10 s watchdog".into(),
         "accepted null-move spellings: 0000 and (none)".into(),
@@ -416,6 +416,59 @@ pub fn run(tier: Tier, seed: u64) -> i32 {
         for (a, sl) in res {
             run.acc.merge(a, &["max_overhead_ms_x10", "max_isready_ms"]);
             slow_all.extend(sl);
+        }
+    }
+    // long slices ---------------------------------------------------------------------------------
+    // A lateness that grows with the slice (a polling interval derived from it, a back-off, a
+    // rounding to coarse ticks) is invisible at slices of 200 ms. A few go's with slices of 2.4 to
+    // 6.4 s, all at once: roots whose search ends long before the deadline (the I/O thread waits
+    // alone) and roots that are searched to the end of the slice. Judged like the others:
+    // slice + 300 ms, decided by three solo re-runs.
+    {
+        let n_long = tier.pick(12usize, 36);
+        let slices: [u64; 6] = [2400, 3300, 4100, 4800, 5600, 6400];
+        let quiet_roots = ["6k1/5ppp/8/8/8/8/8/R5K1 w - -", "7k/8/5K2/8/8/8/8/6Q1 w - -", "8/8/8/4k3/8/8/4P3/4K3 w - -", "r3k2r/p1ppqpb1/bn2pnp1/3PN3/1p2P3/2N2Q1p/PPPBBPPP/R3K2R w KQkq -", "6k1/5ppp/8/8/8/8/8/r5K1 b - -", "rnbqkbnr/pppppppp/8/8/8/8/PPPPPPPP/RNBQKBNR w KQkq -"];
+        let res = run_parallel(n_long.min(12), n_long, |i| {
+            let mut acc = Acc::new();
+            let mut slow = Vec::new();
+            let slice = slices[i % slices.len()] + (seed % 7) * 13;
+            let fen = quiet_roots[(i / slices.len() + i) % quiet_roots.len()];
+            let p = Pos::parse_fen(fen).unwrap();
+            let mut s = match Sess::start(&plain, SpawnOpts::default(), false) {
+                Ok(s) => s,
+                Err(e) => {
+                    acc.inconclusive.push(format!("session start failed: {}", e));
+                    return (acc, slow);
+                }
+            };
+            s.position_fen(&p);
+            let clock = 100 + (slice as f64 / 0.8).round() as u64;
+            let args = format!("wtime {} btime {} movestogo 1", clock, clock);
+            let g = s.go(&args, WATCHDOG);
+            acc.evaluations += 1;
+            if acc.distinct.insert(hash64(&format!("long|{}|{}", fen, args))) {
+                acc.feature("slice_of_seconds");
+            }
+            let lat = g.latency_ms().unwrap_or(f64::INFINITY);
+            if lat.is_finite() {
+                acc.max("max_overhead_ms_x10_long_slices", ((lat - g.plan_ms as f64).max(0.0) * 10.0) as u64);
+            }
+            if i < 2 {
+                acc.sample(json!({"position": fen, "go": g.args, "plan_ms": g.plan_ms as u64, "latency_ms": g.latency_ms()}));
+            }
+            if lat > g.plan_ms as f64 + OVERHEAD_MS {
+                slow.push(SlowCase { position_cmd: format!("position fen {}", p.to_fen6(0, 1)), go_args: g.args.clone(), plan_ms: g.plan_ms, latency_ms: lat, mode: "long_slice".into() });
+            } else if !s.isready(WATCHDOG) {
+                acc.violation(format!("C08|long-isready|{}", fen), format!("after '{}' on {} (answered) isready is not answered", g.args, fen), json!({"kind": "session", "property": "C08", "script": [format!("position fen {}", p.to_fen6(0, 1)), g.args, "isready"]}));
+            }
+            (acc, slow)
+        });
+        for (a, sl) in res {
+            run.acc.merge(a, &["max_overhead_ms_x10_long_slices"]);
+            // long-slice candidates go first in the confirmation queue
+            for c in sl {
+                slow_all.insert(0, c);
+            }
         }
     }
     // solo confirmation of latency outliers (nothing else is running now)
